@@ -1,6 +1,7 @@
 package cluster
 
 import (
+	"bytes"
 	"fmt"
 	"io"
 	"os"
@@ -49,7 +50,9 @@ func (c *ClusterNode) syncUserCollections() error {
 						Bucket:    USERCOLSBUCKETKEY,
 					}
 				}
-				postage[destination].KeyValues[string(k)] = v
+				// The value is only valid during the read transaction but we
+				// send after it, so we need our own copy
+				postage[destination].KeyValues[string(k)] = bytes.Clone(v)
 			}
 			return nil
 		})
